@@ -228,3 +228,43 @@ theorem get_setNat_ne (m : List (κ × Nat)) (x y : κ) (n : Nat) (h : x ≠ y) 
 
 end AL
 end Mainchain
+
+namespace Mainchain
+namespace AL
+variable {κ : Type} {ν : Type} [DecidableEq κ]
+
+/-- Σ f over the values of a map -/
+def sumF (f : ν → Int) : List (κ × ν) → Int
+  | [] => 0
+  | (_, v) :: m => f v + sumF f m
+
+def fOpt (f : ν → Int) : Option ν → Int
+  | some v => f v
+  | none => 0
+
+theorem sumF_insert (f : ν → Int) (m : List (κ × ν)) (x : κ) (w : ν) :
+    sumF f (insert m x w) = sumF f m - fOpt f (find? m x) + f w := by
+  induction m with
+  | nil => simp [insert, find?, sumF, fOpt]
+  | cons p m ih =>
+    obtain ⟨k, v⟩ := p
+    by_cases h : k = x
+    · simp [insert, find?, sumF, fOpt, h]; omega
+    · simp only [insert, h, if_false, sumF, find?] at *
+      omega
+
+theorem sumF_erase (f : ν → Int) (m : List (κ × ν)) (x : κ) (h : NoDupKeys m) :
+    sumF f (erase m x) = sumF f m - fOpt f (find? m x) := by
+  induction m with
+  | nil => simp [erase, find?, sumF, fOpt]
+  | cons p m ih =>
+    obtain ⟨k, v⟩ := p
+    simp only [NoDupKeys, keys, List.map_cons, List.nodup_cons] at h
+    by_cases hk : k = x
+    · simp [erase, find?, sumF, fOpt, hk]; omega
+    · have := ih h.2
+      simp only [erase, hk, if_false, sumF, find?] at *
+      omega
+
+end AL
+end Mainchain
